@@ -255,7 +255,15 @@ fn eval(w: &mut World, p: &P13, rec: &mut Rec) -> bool {
                 rec.viol_kf("C13_out_of_tolerance_deposit_accepted", format!("{:?}", p), format!("{:?}: after the inner swap the pool holds {x1}/{y1} and the deposit leg is {half} uom + {got} uusd, outside the deposit tolerance, but the single-asset deposit was accepted", p));
             }
             if must_accept && !out.is_ok() {
-                rec.viol("C13_in_tolerance_deposit_refused", format!("{:?}: deposit leg {half}/{got} against {x1}/{y1} is within the tolerance but the single-asset deposit was refused: {}", p, out.err_text()));
+                // refused although the deposit leg is within the tolerance: only the tolerance's doing if the very same
+                // deposit without a deposit tolerance is accepted (tiny deposits are refused for minting no LP at all)
+                let plain = w.exec(&a, &pma, &pm::ExecuteMsg::ProvideLiquidity { liquidity_max_slippage: None, swap_max_slippage: swap_tol.map(dec), receiver: None, pool_identifier: "o.g".into(), unlocking_duration: None, lock_position_identifier: None }, &[coin(*amount, "uom")]);
+                w.restore(&s0);
+                if plain.is_ok() {
+                    rec.viol("C13_in_tolerance_deposit_refused", format!("{:?}: deposit leg {half}/{got} against {x1}/{y1} is within the tolerance but the single-asset deposit was refused: {}", p, out.err_text()));
+                } else {
+                    rec.count("c13_single_refused_for_another_reason");
+                }
             }
             true
         }
